@@ -212,7 +212,7 @@ def gen_recursive(r, depth=None):
   """One recursive program around a depth; returns (program, family)."""
   d = depth if depth is not None else r.choice(DEPTHS)
   family = r.choice(['counter', 'reach', 'tc', 'cycle2', 'cycle3', 'sp', 'random', 'random',
-                     'bagpaths', 'helper'])
+                     'bagpaths', 'helper', 'ring', 'ring'])
   around = max(1, d + r.choice([-2, -1, 0, 0, 1, 1, 2, 3]))
   preds = []
   main = None
@@ -243,12 +243,28 @@ def gen_recursive(r, depth=None):
     main = 'TC'
   elif family == 'cycle2':
     bound = 2 * around + 5
-    preds.append({'name': 'A', 'arity': 1, 'kind': 'distinct', 'rules': [
+    k2 = r.choice(['distinct', 'distinct', 'bag'])
+    preds.append({'name': 'A', 'arity': 1, 'kind': k2, 'rules': [
         rule([C(0)]),
         rule([['e', 'n', '+', 1]], [['B', [V('n')], None]], [['n', '<', C(bound)]])]})
-    preds.append({'name': 'B', 'arity': 1, 'kind': 'distinct', 'rules': [
+    preds.append({'name': 'B', 'arity': 1, 'kind': k2, 'rules': [
         rule([['e', 'n', '+', 1]], [['A', [V('n')], None]], [['n', '<', C(bound)]])]})
     main = r.choice(['A', 'B'])
+  elif family == 'ring':
+    # a pure ring of k members with a base fact in one member only, walking along a chain;
+    # usually bag-valued (no distinct, no aggregation: the cover has no auxiliary members)
+    k = r.choice([2, 2, 3, 3, 4])
+    names = ['A', 'B', 'Cc', 'Dd'][:k]
+    kr = r.choice(['bag', 'bag', 'bag', 'distinct'])
+    preds.append({'name': 'E', 'arity': 2, 'kind': 'edb', 'rows': chain(r, around + 2), 'rules': []})
+    base = r.randrange(k)
+    for i, n in enumerate(names):
+      rules_ = []
+      if i == base:
+        rules_.append(rule([C(0)]))
+      rules_.append(rule([V('y')], [[names[(i - 1) % k], [V('x')], None], ['E', [V('x'), V('y')], None]]))
+      preds.append({'name': n, 'arity': 1, 'kind': kr, 'rules': rules_})
+    main = r.choice(names)
   elif family == 'cycle3':
     bound = around + 4
     def succ(src):
@@ -359,13 +375,13 @@ def gen_recursive(r, depth=None):
       preds.append(zp)
   recursive = {}
   if d != 8 or r.random() < 0.3:
-    ann = r.choice(members) if family in ('cycle2', 'cycle3', 'random', 'helper') else main
-    if family not in ('cycle2', 'cycle3', 'random', 'helper'):
+    ann = r.choice(members) if family in ('cycle2', 'cycle3', 'random', 'helper', 'ring') else main
+    if family not in ('cycle2', 'cycle3', 'random', 'helper', 'ring'):
       ann = [m for m in members if m in ('N', 'R', 'TC', 'D', 'W')][0]
     recursive[ann] = d
     # two annotated members in one component: the smallest annotated name decides
     others = [m for m in members if m != ann]
-    if family in ('cycle2', 'cycle3', 'random', 'helper') and others and r.random() < 0.35:
+    if family in ('cycle2', 'cycle3', 'random', 'helper', 'ring') and others and r.random() < 0.35:
       recursive[r.choice(others)] = max(1, min(d, r.choice([2, 3, 5, 8, d])))
   if second and r.random() < 0.25:
     recursive[[p['name'] for p in preds if p['name'] in ('Z', 'Aa')][0]] = r.choice([3, 5, 11, 12])
